@@ -9,6 +9,7 @@ import (
 	"bytes"
 	"context"
 	"encoding/base64"
+	"encoding/hex"
 	"encoding/json"
 	"errors"
 	"fmt"
@@ -25,6 +26,7 @@ import (
 	"sync/atomic"
 	"syscall"
 	"time"
+	"unicode/utf8"
 
 	"github.com/go-chi/chi"
 	"go.amzn.com/lambda/core/statejson"
@@ -603,12 +605,62 @@ func flatHdr(h http.Header) map[string]string {
 				continue
 			}
 		}
-		out[k] = strings.Join(v, "\x1f")
+		out[k] = jsonSafe(strings.Join(v, "\x1f"))
 	}
 	return out
 }
 
+// jsonSafe: the trace travels as JSON, which cannot carry bytes that are not UTF-8; such values are recorded as hex
+func jsonSafe(s string) string {
+	if utf8.ValidString(s) {
+		return s
+	}
+	return "hex:" + hex.EncodeToString([]byte(s))
+}
+
+// ctxBytes: a client context of the scenario; "hex:<digits>" stands for bytes that are not UTF-8
+func ctxBytes(s string) []byte {
+	if strings.HasPrefix(s, "hex:") {
+		if b, err := hex.DecodeString(s[4:]); err == nil {
+			return b
+		}
+	}
+	return []byte(s)
+}
+
 func (a *actor) resolveID(s string) string {
+	if strings.HasPrefix(s, "mut:") {
+		// an id that is NOT the inner one but looks like it: mut:<upper|trunc|ext|flip>:<inner>
+		rest := s[4:]
+		i := strings.IndexByte(rest, ':')
+		if i < 0 {
+			return s
+		}
+		inner := a.resolveID(rest[i+1:])
+		if inner == "none-yet" || inner == "" {
+			return "none-yet"
+		}
+		switch rest[:i] {
+		case "upper":
+			if up := strings.ToUpper(inner); up != inner {
+				return up
+			}
+			return inner + "A"
+		case "trunc":
+			return inner[:len(inner)-1]
+		case "ext":
+			return inner + "0"
+		case "flip":
+			b := []byte(inner)
+			if b[len(b)-1] == '0' {
+				b[len(b)-1] = '1'
+			} else {
+				b[len(b)-1] = '0'
+			}
+			return string(b)
+		}
+		return s
+	}
 	a.mu.Lock()
 	defer a.mu.Unlock()
 	switch {
@@ -1112,7 +1164,7 @@ func (h *host) invoke(st *Step, idx int) {
 	}
 	req, _ := http.NewRequest("POST", h.front.URL+invokePath, bytes.NewReader(body))
 	if st.ClientCtx != nil {
-		req.Header.Set("X-Amz-Client-Context", base64.StdEncoding.EncodeToString([]byte(*st.ClientCtx)))
+		req.Header.Set("X-Amz-Client-Context", base64.StdEncoding.EncodeToString(ctxBytes(*st.ClientCtx)))
 	}
 	if st.RawCtxHdr != nil {
 		req.Header.Set("X-Amz-Client-Context", *st.RawCtxHdr)
@@ -1408,6 +1460,15 @@ func (h *host) addExtEntry(e DirEntry) {
 		os.MkdirAll(filepath.Dir(target), 0o755)
 		os.WriteFile(target, []byte("#!/bin/sh\n"), 0o755)
 		os.Symlink(target, p)
+	case "dangling":
+		os.Symlink(filepath.Join(h.tmpRoot, "targets", "missing-"+e.Name), p)
+	case "fifo":
+		syscall.Mkfifo(p, 0o755)
+	case "socket":
+		if l, err := net.ListenUnix("unix", &net.UnixAddr{Name: p, Net: "unix"}); err == nil {
+			l.SetUnlinkOnClose(false)
+			l.Close()
+		}
 	default:
 		os.WriteFile(p, []byte("#!/bin/sh\n"), 0o755)
 	}
